@@ -21,6 +21,7 @@ NOT_DECIDED = 'that columns/rows partition [0,W) into equal parts and intersect 
 
 
 def run(ctx: Ctx) -> None:
+    ctx.do(A.rule_rank_arg, 'KAISA')
     ctx.do(A.rule_det_unif, 'KAISA')
     ctx.do(A.rule_det_hash, ('kfac.assignment',))
     ctx.do(A.rule_det_pure, f'{A.KA}.greedy_assignment')
